@@ -30,7 +30,7 @@ func init() {
 		Title: "Binomial and hypergeometric PMF/CDF equal the exact rational probabilities",
 		Run:   c06Run,
 		Kinds: []core.Kind{core.ReplayOf("hyperg", c06Hyper), core.ReplayOf("binom", c06Binom)},
-		Rule: "every hypergeometric (N,K,Draws) with 2<=N<=bound and every binomial N<=bound on 101 rational P plus 0, 1 and values within 1e-12 of them, and the complete family N in {100,250,500,999,1000}; " +
+		Rule: "every hypergeometric (N,K,Draws) with 2<=N<=bound and every binomial N<=bound on P = i/200 (i=0..200), 10^(-j/4) and 1-10^(-j/4) (j=1..48), six non-round values and values within 1e-12 of 0 and 1, and the complete family N in {100,250,500,999,1000}; " +
 			"for each, every integer k from -2 to N+2 and every k+0.5; oracle = exact big.Rat (hypergeometric) / 600-bit big.Float on the exact value of the float P (binomial, cross-checked against big.Rat for N<=12). " +
 			"Non-trivial: the support has at least 2 points.",
 		Technique:   "bounded-exhaustive parameter and argument enumeration of the real distributions against exact rational / 600-bit references",
@@ -211,9 +211,16 @@ func c06Binom(c *C06B, r *core.Rec) {
 
 func c06PGrid() []float64 {
 	ps := []float64{0, 1, 1e-12, 1 - 1e-12, 0x1p-53, 1 - 0x1p-53, 1e-300, 0.5 + 0x1p-53, 1.0 / 3}
-	for i := 1; i < 100; i++ {
-		ps = append(ps, float64(i)/100)
+	for i := 1; i < 200; i++ {
+		ps = append(ps, float64(i)/200)
 	}
+	// between and below the percent grid: a geometric ladder towards 0 and towards 1
+	// and a few non-round values
+	for j := 1; j <= 48; j++ {
+		q := math.Pow(10, -float64(j)/4)
+		ps = append(ps, q, 1-q)
+	}
+	ps = append(ps, 0.137, 1.0/7, 1/math.E, 0.0037, 0.99637, math.Sqrt2-1)
 	return ps
 }
 
